@@ -51,7 +51,7 @@ def gen(rng, i, tier):
                 ig = dict(ig)
                 ig["iq"] = ig.pop("ig")
             c["args"]["iq"] = ig
-    return {"spec": spec, "vseed": rng.randrange(1 << 30)}
+    return {"spec": spec, "vseed": rng.randrange(1 << 30), "via_history": rng.random() < 0.3}
 
 
 def _c(name, kind, args, parents, **kw):
@@ -76,9 +76,33 @@ def run(ctx, case):
     ns = loader.load()
     spec = case["spec"]
     rng = random.Random(case["vseed"])
-    st, a = H.try_build(spec)
-    if st != "ok":
-        raise RuntimeError("spec rejected: %s" % H.exc_sig(a))
+    if case.get("via_history"):
+        # the system to be saved is the product of an edit history (node indices with holes, renamed components ...)
+        from . import c16
+        from .. import hist
+
+        for c in spec["comps"]:
+            c["via_rail"] = [False] * len(c["parents"])
+            if c["kind"] == "LinReg" and "iq" in c["args"]:
+                c["args"]["ig"] = c["args"].pop("iq")
+                if isinstance(c["args"]["ig"], dict) and "iq" in c["args"]["ig"]:
+                    c["args"]["ig"]["ig"] = c["args"]["ig"].pop("iq")
+        ops, used = c16.plan_history(random.Random(case["vseed"] + 1), spec, 0.6)
+        _, start, g0, r0 = ops[0]
+        a = ns.System(spec.get("name", "sys"), hist.make(ns, start), group=g0, rail=r0)
+        for op in ops[1:]:
+            if op["op"] == "analyse":
+                continue
+            st, e = hist.apply(a, op, ns)
+            if st != "ok":
+                ctx.inconc("detour op rejected: %s" % H.exc_sig(e))
+                return
+        ctx.count("built", "via edit history")
+    else:
+        st, a = H.try_build(spec)
+        if st != "ok":
+            raise RuntimeError("spec rejected: %s" % H.exc_sig(a))
+        ctx.count("built", "fresh")
     with H.tmpdir() as d:
         f1 = os.path.join(d, "a.json")
         st, r = H.call(a.save, f1)
